@@ -162,6 +162,7 @@ PLAN = {
         level="proof",
         verus=["C04_learn_epoch.rs"],
         kani=True,
+        native_checks=[("learn.stopping", "bounded native grid: real learn() runs (tolerance 1-3, budgets 1-9, four step-size classes from convergent to divergent, with / without validation data): the returned histories satisfy the three sentences of C13; 288 runs")],
         undecided_clauses=["validation losses are required to be non-NaN (the property's trajectories are real numbers): with a NaN entry `!(a <= b)` and `a > b` differ",
                            "validate() is an assumed function of (network, data) that leaves the network unchanged (C09 / C12 decide what it does); the print blocks are dropped "
                            "from the unit (scanned: no control flow, no write to the histories)",
